@@ -17,6 +17,8 @@ STATEMENTS = [
  "CREATE TABLE c({ .a.b } => x INT CONVERT, { .e[0] } => y TEXT[], 'x=(\\\\d+)' => z REAL, p = split ';', p[1] => q TEXT TRIM, p[2], p[3] => ar INT[], line = match 'l', line[1], line[2] => ts TIMESTAMP MICROSECONDS, line[3] => b BOOLEAN);",
  "SELECT percentile(v, 0.5), string_agg(k, ','), bool_and(v > 0) FROM t GROUP BY k",
  "SELECT COUNT(DISTINCT k) FROM t",
+ "SELECT k, v FROM t WHERE k = 'é€ß' AND v > 1 LIMIT 2",
+ "CREATE TABLE n(line = 'naïve=(\\d+) «x»', line[1] => x INT, 'ü(.)' => y TEXT);",
 ]
 
 VOCAB = ["SELECT", "FROM", "WHERE", "GROUP", "BY", "HAVING", "LIMIT", "CREATE", "TABLE", "NOT", "IS", "IN", "AND", "CASE", "WHEN", "END",
